@@ -111,6 +111,15 @@ class Check(PropertyCheck):
                 tr.take(j)
                 lines.append(f"disp {j} {p} {m}")
             lines.append("solved")
+            if rng.random() < 0.5:
+                # a second, different complete schedule of the SAME instance object: its solved graph is its own
+                lines.append("reset")
+                tr.reset()
+                while not tr.done():
+                    j, p, m = gen.gen_valid_request(rng, tr, rng.choice(["uniform", "last_job_first"]))
+                    tr.take(j)
+                    lines.append(f"disp {j} {p} {m}")
+                lines.append("solved")
             if rng.random() < 0.4:
                 # a second, differently sized instance in the same process: its graphs must not disturb the first one's
                 _, jobs2 = gen.gen_instance(rng, max_jobs=3, max_ops=3)
